@@ -369,7 +369,11 @@ func (e *Element) fillUncompressed(in *[elementLengthUncompressed]byte) []byte {
 	out = append(out, affine.x.Bytes()...)
 	out = append(out, affine.y.Bytes()...)
 
-	return out
+	// The identity has no affine coordinates: like Encode, encode it as the single byte 0x00, which Decode accepts.
+	isIdentity := int(e.z.IsZero())
+	out[0] = byte(subtle.ConstantTimeSelect(isIdentity, encodingPrefixIdentity, encodingPrefixUncompressed))
+
+	return out[:subtle.ConstantTimeSelect(isIdentity, elementLengthIdentity, elementLengthUncompressed)]
 }
 
 // XCoordinate returns the encoded x coordinate of the element, which is the same as Encode() without the header.
